@@ -11,6 +11,7 @@ status equal node 0's, scenario by scenario.
 """
 
 import copy
+import hashlib
 import json
 import os
 import shutil
@@ -36,7 +37,7 @@ def load_catalogue():
 # generated worlds with ties and collisions
 
 
-def phased_copy(world, truth="main", tag="PS", samples=None, unsorted_ps=False, nsets=1):
+def phased_copy(world, truth="main", tag="PS", samples=None, unsorted_ps=False, nsets=1, thin=None):
     """the world's VCF with the truth written as phase (nsets contiguous phase sets per chromosome and sample)"""
     w = copy.deepcopy(world)
     cores = [r for r in w["records"] if r.get("core")]
@@ -55,6 +56,8 @@ def phased_copy(world, truth="main", tag="PS", samples=None, unsorted_ps=False, 
                 continue
             j = seen.get((r["chrom"], s), 0)
             seen[(r["chrom"], s)] = j + 1
+            if thin and int(hashlib.sha256(("%s|%d|%s|%d" % (thin[0], r["chrom"], s, r["pos"])).encode()).hexdigest()[:6], 16) % 100 < thin[1]:
+                continue  # this call stays unphased: a partial pre-phasing
             g = j * max(1, nsets) // max(1, nhet[(r["chrom"], s)])
             ps = first.setdefault((r["chrom"], s, g), r["pos"] + 1)
             if "PS" not in r["format"]:
@@ -125,6 +128,9 @@ def make_generated(rng, kind):
             out.append(dict(base, name="gen-stats-indexed-chromosome", subcommand="stats", stdout="text",
                             argv=["stats", "--tsv", "{out:stats.tsv}", "--block-list", "{out:blocks.tsv}", "--chromosome", w["chroms"][-1]["name"],
                                   "--chromosome", w["chroms"][0]["name"], "--sample", w["samples"][0], "{W}/phased.vcf.gz"]))
+        out.append(dict(base, name="gen-haplotag-cram", subcommand="haplotag",
+                        argv=["haplotag", "-o", "{out:tagged.cram}", "--output-haplotag-list", "{out:list.tsv}", "--reference", "{W}/ref.fa",
+                              "--output-threads", "{othreads}", "{W}/phased.vcf.gz", "{W}/reads.bam"]))
         out.append(dict(base, name="gen-haplotag-collide-gzlist", subcommand="haplotag",
                         argv=["haplotag", "-o", "{out:tagged.bam}", "--output-haplotag-list", "{out:list.tsv.gz}", "--no-reference",
                               "--tag-supplementary", "--output-threads", "{othreads}", "{W}/phased.vcf.gz", "{W}/reads.bam"]))
@@ -140,10 +146,27 @@ def make_generated(rng, kind):
         out.append(dict(base, name="gen-phase-multisample-hp-distrust", subcommand="phase",
                         argv=["phase", "-o", "{out:phased.vcf.gz}", "--reference", "{W}/ref.fa", "--tag", "HP", "--distrust-genotypes", "--include-homozygous",
                               "--changed-genotype-list", "{out:changed.tsv}", "{W}/in.vcf", "{W}/reads.bam"]))
+        out.append(dict(base, name="gen-phase-multisample-bcf", subcommand="phase",
+                        argv=["phase", "-o", "{out:phased.bcf}", "--reference", "{W}/ref.fa", "--sample", w["samples"][-1], "--sample", w["samples"][0],
+                              "--output-read-list", "{out:reads.tsv}", "{W}/in.vcf", "{W}/reads.bam"]))
         out.append(dict(base, name="gen-stats-truth", subcommand="stats",
                         argv=["stats", "--tsv", "{out:stats.tsv}", "--block-list", "{out:blocks.tsv}", "--gtf", "{out:blocks.gtf}", "--sample", w["samples"][0], "{W}/truth.vcf"], stdout="text"))
         out.append(dict(base, name="gen-genotype-multisample", subcommand="genotype",
                         argv=["genotype", "-o", "{out:genotyped.vcf}", "--reference", "{W}/ref.fa", "{W}/in.vcf", "{W}/reads.bam"]))
+    elif kind == "extreme-depth":
+        # far more overlapping alignments than any ordinary data set has (amplicon / collapsed repeat): numeric limits of readers
+        w = W.gen_core(rng, n_chroms=1, n_samples=1, kinds=["snv"], length=rng.choice([260, 400]), n_variants=rng.choice([5, 8]), het_rate=1.0, min_gap=25)
+        W.gen_library(rng, w, "L0", depth=rng.choice([1100, 1600, 2500]), read_len=(120, 250), cuts=0)
+        for r in w["libs"]["L0"]["reads"]:
+            r["bq"] = rng.choice([20, 30, 40])
+        files = [{"kind": "ref", "name": "ref.fa"}, {"kind": "bam", "lib": "L0", "name": "reads.bam"}, {"kind": "vcf", "name": "in.vcf"},
+                 {"kind": "vcfgz", "name": "phased.vcf.gz", "phased": "PS"}]
+        base = {"world": W.clean_world(w), "files": files, "stdout": None, "expect_exit": 0}
+        out.append(dict(base, name="gen-phase-extreme-depth", subcommand="phase",
+                        argv=["phase", "-o", "{out:phased.vcf}", "--no-reference", "--ignore-read-groups", "--output-read-list", "{out:reads.tsv}", "{W}/in.vcf", "{W}/reads.bam"]))
+        out.append(dict(base, name="gen-haplotag-extreme-depth", subcommand="haplotag",
+                        argv=["haplotag", "-o", "{out:tagged.bam}", "--output-haplotag-list", "{out:list.tsv}", "--no-reference", "--ignore-read-groups",
+                              "--output-threads", "{othreads}", "{W}/phased.vcf.gz", "{W}/reads.bam"]))
     elif kind == "compare-names":
         w1 = W.gen_core(rng, n_chroms=rng.choice([1, 2]), n_samples=1, sample_names=[rng.choice(["alpha", "s1", "b"])], kinds=["snv"], length=1000,
                         n_variants=rng.choice([12, 18, 25]), het_rate=0.95)
@@ -172,10 +195,15 @@ def make_generated(rng, kind):
                         argv=["polyphase", "-o", "{out:phased.vcf}", "--ploidy", str(ploidy), "--reference", "{W}/ref.fa", "--threads", "{threads}", "{W}/in.vcf", "{W}/reads.bam"]))
         if len(w["samples"]) > 1:
             # one sample comes with a pre-phasing, the other without: per-sample options must not leak between samples
-            files.append({"kind": "vcf", "name": "pre.vcf", "phased": "PS", "psamples": [w["samples"][rng.randrange(len(w["samples"]))]], "nsets": rng.choice([1, 2])})
+            files.append({"kind": "vcf", "name": "pre.vcf", "phased": "PS", "psamples": [w["samples"][rng.randrange(len(w["samples"]))]], "nsets": rng.choice([1, 2]),
+                          "thin": rng.choice([None, [rng.randrange(10**6), 20], [rng.randrange(10**6), 40]])})
             out.append(dict(base, name="gen-polyphase-prephasing-mixed", subcommand="polyphase",
                             argv=["polyphase", "-o", "{out:phased.vcf}", "--ploidy", str(ploidy), "--reference", "{W}/ref.fa", "--threads", "{threads}",
                                   "--use-prephasing", "-B", rng.choice(["0", "1", "2"]), "{W}/pre.vcf", "{W}/reads.bam"]))
+        files.append({"kind": "vcf", "name": "partial.vcf", "phased": "PS", "nsets": rng.choice([1, 2, 3]), "thin": [rng.randrange(10**6), rng.choice([15, 30, 50])]})
+        out.append(dict(base, name="gen-polyphase-prephasing-partial", subcommand="polyphase",
+                        argv=["polyphase", "-o", "{out:phased.vcf}", "--ploidy", str(ploidy), "--reference", "{W}/ref.fa", "--threads", "{threads}",
+                              "--use-prephasing", "-B", rng.choice(["0", "1", "4"]), "{W}/partial.vcf", "{W}/reads.bam"]))
         out.append(dict(base, name="gen-polyphase-blocks-B1", subcommand="polyphase",
                         argv=["polyphase", "-o", "{out:phased.vcf}", "--ploidy", str(ploidy), "--reference", "{W}/ref.fa", "--threads", "{threads}",
                               "-B", rng.choice(["0", "1", "3", "5"]), "--include-haploid-sets", "{W}/in.vcf", "{W}/reads.bam"]))
@@ -309,7 +337,7 @@ def make_generated(rng, kind):
     return out
 
 
-GEN_KINDS = ["haplotag-collide", "multisample-phase", "compare-names", "polyploid-blocks", "polyploid-deep", "pedigree", "readlists"]
+GEN_KINDS = ["haplotag-collide", "multisample-phase", "compare-names", "polyploid-blocks", "polyploid-deep", "pedigree", "readlists", "extreme-depth"]
 
 
 def materialise_world(sc, dirpath):
@@ -326,7 +354,7 @@ def materialise_world(sc, dirpath):
         elif f["kind"] in ("vcf", "vcfgz"):
             ww = w
             if f.get("phased"):
-                ww = phased_copy(w, truth=f.get("truth", "main"), tag=f["phased"], nsets=f.get("nsets", 1), samples=f.get("psamples"))
+                ww = phased_copy(w, truth=f.get("truth", "main"), tag=f["phased"], nsets=f.get("nsets", 1), samples=f.get("psamples"), thin=f.get("thin"))
             if f.get("rename"):
                 ww = copy.deepcopy(ww)
                 ren = f["rename"]
@@ -418,7 +446,7 @@ def gen_case(rng, tier, catalogue):
         allow = None if ref else {d for d in ("threads", "othreads", "pool", "clock", "repeat", "env", "debug") if rng.random() < 0.7}
         mtime = None if ref else rng.choice([None, None, "data-newer", "index-newer"])
         cfgs = [draw_config(rng, reference=ref, allow=allow) for _ in chosen]
-        nodes.append({"hashseed": hs, "configs": cfgs, "mtime": mtime})
+        nodes.append({"hashseed": hs, "configs": cfgs, "mtime": mtime, "optimize": (not ref) and rng.random() < 0.25})
     return {"scenarios": chosen, "worlds": worlds, "nodes": nodes}
 
 
@@ -476,6 +504,9 @@ def run_nodes(case, casedir, scratch, node_indices=None, timeout=900):
             json.dump(job, f)
         env = dict(os.environ)
         env["PYTHONHASHSEED"] = str(node["hashseed"])
+        env.pop("PYTHONOPTIMIZE", None)
+        if node.get("optimize"):
+            env["PYTHONOPTIMIZE"] = "1"  # python -O: assert statements are not executed; results must not depend on them
         env["PYTHONPATH"] = scratch + os.pathsep + VERIF
         env.pop("VERIF_SELFTEST_CHILD", None)
         log = open(os.path.join(nd, "node.log"), "w")
@@ -517,7 +548,7 @@ def describe_cfg(node, cfg):
     return "hashseed=%s threads=%d out-threads=%d pool=%s clock=%s repeat=%s%s" % (
         node["hashseed"], cfg["threads"], cfg["othreads"], cfg["pool"]["mode"], "+".join(cfg["clock"]["enabled"]) or "monotone", cfg["repeat"],
         (" env=%s" % ",".join("%s=%s" % kv for kv in sorted(cfg.get("env", {}).items())) if cfg.get("env") else "")
-        + (" --debug" if cfg.get("debug") else "") + (" mtimes=%s" % node["mtime"] if node.get("mtime") else ""))
+        + (" --debug" if cfg.get("debug") else "") + (" mtimes=%s" % node["mtime"] if node.get("mtime") else "") + (" python-O" if node.get("optimize") else ""))
 
 
 def blame(node, cfg):
@@ -541,6 +572,8 @@ def blame(node, cfg):
         dims.append("debug")
     if node.get("mtime"):
         dims.append("mtime")
+    if node.get("optimize"):
+        dims.append("python-O")
     return dims
 
 
@@ -653,6 +686,8 @@ class NodeEngine(Engine):
                         stats.inc("fault_debug-logging")
                     if node.get("mtime") and "w" in sc:
                         stats.inc("fault_mtime-" + node["mtime"])
+                    if node.get("optimize"):
+                        stats.inc("fault_python-O")
                     if node["hashseed"] != 0:
                         stats.inc("fault_hashseed-change")
                     if cfg["threads"] != 1 and "{threads}" in sc["argv"]:
@@ -749,6 +784,10 @@ class NodeEngine(Engine):
             if n.get("mtime"):
                 c = copy.deepcopy(case)
                 c["nodes"][k]["mtime"] = None
+                yield c
+            if n.get("optimize"):
+                c = copy.deepcopy(case)
+                c["nodes"][k]["optimize"] = False
                 yield c
             for i, cfg in enumerate(n["configs"]):
                 for key in ("repeat", "clock", "pool", "othreads", "threads", "env", "debug"):
